@@ -70,13 +70,18 @@ class Script:
 
     def __init__(self, line):
         t = line.split()
-        assert t[0] == "cscript"
+        assert t[0] in ("cscript", "cpscript")
         self.cfg = Cfg(t[1:1 + NCFG])
         o = 1 + NCFG
         self.https = t[o] == "1"
         self.host = unhex(t[o + 1])
         self.hostport = unhex(t[o + 2])
         self.now0 = int(t[o + 3])
+        # cpscript: an SSO deployment with an SSO proxy next to the SSO server; items of kind "P" are requests to the proxy's origin
+        self.proxy = None
+        if t[0] == "cpscript":
+            self.proxy = {"https": t[o + 4] == "1", "host": unhex(t[o + 5]), "hostport": unhex(t[o + 6]), "ingresses": unhex_list(t[o + 7])}
+            o += 4
         np_ = int(t[o + 4])
         k = o + 5
         self.probes = []
@@ -85,17 +90,25 @@ class Script:
             k += 3
         self.items = []
         while k < len(t):
-            if t[k] == "R":
+            if t[k] in ("R", "P"):
                 self.items.append({"kind": "R", "dt": int(t[k + 1]), "ep": t[k + 2], "path": unhex(t[k + 3]), "fault": t[k + 4],
-                                   "prompt": t[k + 5] == "1"})
+                                   "prompt": t[k + 5] == "1", "proxy": t[k] == "P"})
                 k += 6
             else:
                 self.items.append({"kind": "W", "via": t[k + 1] == "1", "ep": t[k + 2], "path": unhex(t[k + 3]),
                                    "faults": [] if t[k + 4] == "~" else t[k + 4].split(",")})
                 k += 5
 
-    def base(self):
+    def base(self, proxy=False):
+        if proxy:
+            return ("https://" if self.proxy["https"] else "http://") + self.proxy["hostport"]
         return ("https://" if self.https else "http://") + self.hostport
+
+    def describe(self):
+        d = self.cfg.describe()
+        if self.proxy:
+            d["sso_proxy_in_front_of_an_application"] = {"ingresses": self.proxy["ingresses"], "relays_to_sso_server": self.base()}
+        return d
 
 
 def parse_probes(toks, probes):
@@ -165,9 +178,26 @@ def describe_fault(f):
 
 def describe_item(script, it):
     if it["kind"] == "R":
-        return "GET %s%s%s [%s] after %dns" % (script.base(), it["path"], "?prompt=login" if it["prompt"] else "",
-                                             {"n": "no fault", "s": "no sid"}.get(it["fault"], "fault " + describe_fault(it["fault"])), it["dt"])
+        return "GET %s%s%s [%s] after %dns%s" % (script.base(it.get("proxy", False)), it["path"], "?prompt=login" if it["prompt"] else "",
+                                               {"n": "no fault", "s": "no sid"}.get(it["fault"], "fault " + describe_fault(it["fault"])), it["dt"],
+                                               " (to the SSO proxy)" if it.get("proxy") else "")
     causes = sorted({f for f in it["faults"] if fault_cause(f)[1]})
     return "browser follows redirects from %s%s with per-request faults %s%s%s" % (
         script.base(), it["path"], ",".join(it["faults"]), " (through the provider)" if it["via"] else "",
         "".join("; " + describe_fault(f) for f in causes))
+
+
+def name_collisions(cookies):
+    """Set-Cookie headers of ONE response that share (name, domain, path) although they are not the same header twice:
+    a browser files cookies under exactly that triple, so it keeps only the last of them - whatever the earlier one
+    carried (a counter, a session) is gone the moment it arrives. Returns the list of colliding pairs."""
+    out = []
+    seen = {}
+    for c in cookies:
+        k = (c["name"], c["domain"], c["path"])
+        if k in seen and seen[k] != c:
+            out.append({"name": c["name"], "domain": c["domain"], "path": c["path"],
+                        "first": {"value": seen[k]["value"], "max_age": seen[k]["maxage"]},
+                        "second": {"value": c["value"], "max_age": c["maxage"]}})
+        seen[k] = c
+    return out
